@@ -158,7 +158,7 @@ Section Inv.
         specialize (Hw f). destruct (getf f fs) as [v|]; [|reflexivity]. destruct Hw as [ty Hv]. cbn [option_map].
         destruct v as [i|[l|]|l|s|t|d|u|z|bb|m|mt c|e|a0 b0 c0]; destruct ty; try discriminate Hv; reflexivity.
       - (* the PublicKey guard *)
-        destruct (bytes_eqb src (B "len(a.PublicKey.PublicKeyPem)+len(a.PublicKey.ID) > 0")); [|reflexivity].
+        destruct (bytes_eqb src (pubkey_guard_src)); [|reflexivity].
         rewrite (Hg F_PublicKey). specialize (Hw F_PublicKey). destruct (getf F_PublicKey fs) as [v|]; [|reflexivity].
         destruct Hw as [ty Hv]. cbn [option_map].
         destruct v as [i|[l|]|l|s|t|d|u|z|bb|m|mt c|e|a0 b0 c0]; destruct ty; try discriminate Hv; reflexivity. }
